@@ -125,11 +125,21 @@ def attach(ctx, n_cases=40, prove=True):
         else:
             k = int(res.split()[1])
             fails.append((c, res, b[0][max(0, k - 8):k + 1]))
-    summ = {"machine_cases": len(cases), "machine_moves_replayed": moves, "machine_snapshots_compared": snaps,
+    # ---- steal-victim selection of the default steal function (the controlled runs above install the
+    # harness' own steal function, so the library's victim choice is tied separately, at unit level)
+    vfail, vdis, vlines = victim_tie(ctx, drv)
+    summ = {"victim_draws_compared": vlines, "victim_disagreements": vdis, "victim_oracle_failures": len(vfail),
+            "machine_cases": len(cases), "machine_moves_replayed": moves, "machine_snapshots_compared": snaps,
             "machine_disagreements": len(fails), "machine_oracle_failures": len(oracle_fails), "machine_verdicts": verdicts}
     ctx.cov.setdefault("correspondence", {})["machine"] = summ
     ctx.cov["trusted_base"] += ["whole-machine tie: harness/lib_interp.c machine snapshots (msnap), tools/machine_common.py (moves read off "
                                 "the trace), ocaml/driver_Machine.ml, extraction of coq/Machine/MachineModel.v (ExtrOcamlBasic only)"]
+    if vfail:
+        ctx.violation("victim-oracle", vfail[0], {"case": "victim_unit", "observed": vfail[:5], "level": "unit",
+                                                   "expected": "every victim is another valid worker and every other worker is chosen"}, found=True)
+    elif vdis:
+        ctx.violation("victim-correspondence", "steal-victim selection differs from the model on %d draw(s)" % vdis,
+                      {"theorem_or_correspondence": "correspondence coq/Machine/VictimModel.v <-> myth_env_get_first_busy"}, found=False)
     if oracle_fails:
         c, msg = oracle_fails[0]
         ctx.violation("machine-oracle", msg, {"case": c, "observed": msg, "expected": "every thread in at most one place; run completes",
@@ -144,6 +154,42 @@ def attach(ctx, n_cases=40, prove=True):
         ctx.violation("proof", "machine theorem(s) no longer check: " + ", ".join(broken),
                       {"theorem_or_correspondence": ", ".join(broken)}, found=False)
     return summ
+
+
+def victim_tie(ctx, drv):
+    """real myth_env_get_first_busy vs the extracted model, plus the property stated directly: the victim is a
+    valid worker other than the thief, and with enough draws every other worker is chosen"""
+    lib = vlib.build_lib()
+    exe = vlib.cc(os.path.join(ctx.dir, "victim_unit"), [os.path.join(vlib.VERIF, "harness", "victim_unit.c")],
+                  flags=vlib.lib_cflags() + ["-O0", "-g"], libs=[lib, "-lpthread", "-ldl", "-lrt"])
+    fails, dis, total = [], 0, 0
+    for n in (1, 2, 3, 4, 7):
+        rc, out = vlib.sh([exe, str(n), str(60 * n)], timeout=60)
+        lines = [l for l in out.split("\n") if l.startswith("v ")]
+        if rc != 0 or not lines:
+            fails.append("victim_unit %d did not run (rc=%s): %s" % (n, rc, out[-200:]))
+            continue
+        rc2, mout = vlib.sh([drv], input="\n".join(lines) + "\n", timeout=60)
+        mlines = [l for l in mout.split("\n") if l.startswith("v ")]
+        total += len(lines)
+        dis += sum(1 for a, b in zip(lines, mlines) if a != b) + abs(len(lines) - len(mlines))
+        seen = {}
+        for l in lines:
+            _, nn, rank, r, v = l.split()
+            nn, rank, v = int(nn), int(rank), int(v)
+            if nn <= 1:
+                if v != -1:
+                    fails.append("a single worker chose a victim: " + l)
+                continue
+            if not (0 <= v < nn) or v == rank:
+                fails.append("victim is not another valid worker: " + l)
+            seen.setdefault(rank, set()).add(v)
+        if n >= 2:
+            for rank in range(n):
+                missing = set(range(n)) - {rank} - seen.get(rank, set())
+                if missing:
+                    fails.append("worker %d of %d never chooses worker(s) %s as steal victim in %d draws" % (rank, n, sorted(missing), 60 * n))
+    return fails, dis, total
 
 
 def run(ctx):
